@@ -195,7 +195,22 @@ def gen_stops(rng, n, tier):
         for _ in range(k - 1):
             ts.append(ts[-1] + rng.choice([5, 10, 10, 20, 60]))
         out.append({'x': xs, 'z': zs, 't': ts, 'diameter': rng.choice([2.5, 4.5, 10.5]), 'duration': rng.choice([7.5, 15.5, 25.5, 65.5])})
+        if rng.random() < 0.3:                          # the documented speed-up: the criterion then applies to the track resampled to size / downsampling points
+            down = rng.choice([2, 2, 3])
+            xs = []; ts = []; x = 0; t = 0                  # a longer track with lingering phases of a few fixes, so that stops survive the down-sampling
+            for _ in range(rng.randint(2, 3)):
+                for _ in range(rng.randint(3, 4) * down):
+                    x += rng.choice([0, 1, -1, 0]); t += rng.choice([5, 10, 10, 20]); xs.append(x); ts.append(t)
+                for _ in range(rng.randint(1, 2) * down):
+                    x += rng.choice([25, 40, 30]); t += rng.choice([5, 10]); xs.append(x); ts.append(t)
+            xs = xs[:12 * down]; ts = ts[:12 * down]
+            out[-1].update({'x': xs, 't': ts, 'z': [rng.choice([0, 0, 0, 3, 50, -20]) for _ in xs], 'down': down})
     return out
+
+
+def eff(case, obs):
+    """the fixes the criterion applies to: the track's own, or those of its down-sampled copy (obtained as documented: track ** (size / downsampling))"""
+    return dict(case, x=obs['dx'], t=obs['dt']) if case.get('down', 1) > 1 and 'dx' in obs else case
 
 
 def stops_matrix(case):
@@ -219,13 +234,25 @@ def run_stops(case):
     tr = Track([Obs(ENUCoords(float(x), 0.0, float(z)), ObsTime.readUnixTime(1000 + t)) for x, z, t in zip(case['x'], case['z'], case['t'])])
     import random
     runs = []
+    down = case.get('down', 1)
+    extra = {}
+    if down > 1:
+        try:
+            t2 = tr.copy()
+            t2 **= t2.size() / down
+            extra = {'dx': t2.getX(), 'dt': [o.timestamp.toAbsTime() - 1000 for o in t2]}
+        except Exception:
+            return {'skipped': 'the track cannot be resampled'}
+        if len(extra['dx']) < 3 or any(abs((b - a) - case['duration']) < 1e-6 for a in extra['dt'] for b in extra['dt']):
+            return {'skipped': 'too short, or a span within rounding of the duration'}
     for seed in case.get('seeds', range(6)):        # the enclosing-circle routine draws random numbers: the result must not depend on them
         random.seed(seed)
-        st = sg.findStopsGlobal(tr, case['diameter'], case['duration'], 1, False)
-        runs.append([[int(st['id_ini', i]), int(st['id_end', i]), int(st['nb_points', i])] for i in range(st.size())])
+        st = sg.findStopsGlobal(tr, case['diameter'], case['duration'], down, False)
+        runs.append([[int(st['id_ini', i]) // down, int(st['id_end', i]) // down, int(st['nb_points', i])] for i in range(st.size())])
+    case = eff(case, extra)
     worst = min(runs, key=lambda r: (sum(s[2] ** 2 for s in r), -len(r)))
     odd = next((r for r in runs if r != runs[0]), None)
-    return {'stops': odd if odd is not None and _bad_stops(case, odd) else worst, 'runs': runs}
+    return dict(extra, stops=odd if odd is not None and _bad_stops(case, odd) else worst, runs=runs)
 
 
 def _bad_stops(case, stops):
@@ -234,14 +261,18 @@ def _bad_stops(case, stops):
 
 
 def coq_stops(case, obs):
-    if 'exc' in obs:
+    if 'exc' in obs or 'skipped' in obs:
         return None
+    case = eff(case, obs)
     return '(%s, %s, %s, %s, %s)' % (coq_list(q(v) for v in case['x']), coq_list(q(v) for v in case['t']), q(case['diameter']), q(case['duration']), q(sum(s[2] ** 2 for s in obs['stops'])))
 
 
 def oracle_stops(case, obs):
     if 'exc' in obs:
         return 'findStopsGlobal raised %s' % obs['exc']
+    if 'skipped' in obs:
+        return None
+    case = eff(case, obs)
     C = stops_matrix(case)
     N = len(C) - 1
     for a, b, nb in obs['stops']:
